@@ -325,7 +325,8 @@ func (sc *c17Scenario) Run(s *simrt.Sim) {
 	var jsonBody *c17Body
 	if sc.BodyKind == "obj" {
 		jsonBody = &c17Body{Name: "n1", N: 7}
-		form = &network.MultipartForm{Value: map[string][]string{"f1": {"v1"}, "f2": {"v2a", "v2b"}}, File: map[string][]string{"up": {filePath}}}
+		// both fields carry the same number of values: the statement sequence of the serializer must not depend on Go's map order
+		form = &network.MultipartForm{Value: map[string][]string{"f1": {"v1a", "v1b"}, "f2": {"v2a", "v2b"}}, File: map[string][]string{"up": {filePath}}}
 	}
 	target := &c17Resp{}
 	var io_ *fpgo.MonadIODef[*network.APIResponse[c17Resp]]
@@ -528,7 +529,7 @@ func (sc *c17Scenario) checkRequest(rec c17Rec, serialized [][]byte, add func(cl
 				sort.Strings(vv)
 				got[k] = vv
 			}
-			if fmt.Sprint(got) != fmt.Sprint(map[string][]string{"f1": {"v1"}, "f2": {"v2a", "v2b"}}) {
+			if fmt.Sprint(got) != fmt.Sprint(map[string][]string{"f1": {"v1a", "v1b"}, "f2": {"v2a", "v2b"}}) {
 				add("body", "multipart-fields-differ", fmt.Sprintf("multipart fields %v", got))
 			}
 			fhs := form.File["up"]
